@@ -159,6 +159,26 @@ def dependent_family(rng):
     return f'int f({params}){{ while ({guard}) {{ {body} }} }}'
 
 
+def failure_patterns(step=1):
+    """bounded-exhaustive: one outer while loop whose body is [statement] [inner while loop] [statement], each
+    statement from a menu of assignments that fail at no / some / all choices and feed one another -- the shapes
+    that decide which tuples reach the delta graph and in which order"""
+    menu = ['a = b + b;', 'a = a + b;', 'd = b + a;', 'd = b + d;', 'd = d * d;', 'a = d;', 'b = a + d;', 'a = a * b;']
+    out = []
+    k = 0
+    for pre in [None] + menu:
+        for inner in [None] + menu:
+            for post in [None] + menu:
+                if pre is None and inner is None and post is None:
+                    continue
+                k += 1
+                if k % step:
+                    continue
+                body = ' '.join(x for x in [pre, ('while (a < b) { %s }' % inner) if inner else None, post] if x)
+                out.append('int f(int a,int b,int d){ while (a < b) { %s } }' % body)
+    return out
+
+
 def gen_sources(ctx, n, opts_fn):
     rng = ctx.rng
     out = list(CORPUS_SRC)
